@@ -56,7 +56,7 @@ def finish(prop, tier, seed, run, wall, rule, explore=False, extra_cov=None, wri
         cov.update(extra_cov)
     if explore:
         print("==== %s explore: %d cases, %d completed, %d crashed" % (prop, run.stat["cases"], run.stat["completed"], run.stat["crashed"]))
-        for skey, e in sorted(run.findings.items(), key=lambda kv: -kv[1]["count"]):
+        for skey, e in sorted(list(run.findings.items()) + [("BLOCKED:" + k, v) for k, v in getattr(run, "blocked", {}).items()], key=lambda kv: -kv[1]["count"]):
             c = e["case"]
             print("%5d  %s\n         e.g. %s p=%s %s n=%d: %s" % (e["count"], skey, c.kind, c.p, c.iname, len(c.S), e["detail"][:200]))
             xd = os.environ.get("VERIF_EXPLORE_DIR")
@@ -66,7 +66,7 @@ def finish(prop, tier, seed, run, wall, rule, explore=False, extra_cov=None, wri
                 write_json_atomic(os.path.join(xd, re.sub(r"[^A-Za-z0-9_.-]+", "_", skey)[:120] + ".json"), obj)
         for k, v in run.known_seen.items():
             print("known %s x%d" % (k, v))
-        print("stat", dict(run.stat))
+        print("stat", dict(run.stat), getattr(run, "stat_blocked_example", ""))
         return 0
     rc = 0
     for kid, cnt in run.known_seen.items():
